@@ -122,6 +122,7 @@ type c13Opt struct {
 	secondShutdown bool
 	fireDeadline   bool // S4: an environment thread lets one pending read deadline expire at any point
 	badReader      bool // S5: DecorateReader returns a Reader without ReadPacketConn: the serve call fails at once
+	handlerCloses  bool // S7: the handler closes the connection through ResponseWriter.Close after (or instead of) its reply
 }
 
 // plainReader hides the PacketConnReader half of the default reader.
@@ -194,6 +195,11 @@ func c13Scenario(name string, o c13Opt) *e2x.Scenario {
 					vsched.Logf("write-error %d", q.Id)
 				} else {
 					vsched.Logf("wrote %d", q.Id)
+				}
+				if o.handlerCloses {
+					w.Close()
+					w.Close() // a second Close must be harmless
+					vsched.Logf("handler-closed %d", q.Id)
 				}
 				vsched.Logf("exit %d", q.Id)
 			})
@@ -461,6 +467,8 @@ func c13Spaces(c *fw.Ctx) {
 		{"S4/tcp/silent-client+read-timeout", c13Opt{transport: "tcp", clients: []string{"silent"}, fireDeadline: true}, 1, 2},
 		{"S4/tcp/1-client+idle-timeout", c13Opt{transport: "tcp", clients: []string{"full"}, fireDeadline: true}, 1, 2},
 		{"S4/pc/1-client+read-timeout", c13Opt{transport: "pc", clients: []string{"full"}, fireDeadline: true}, 1, 2},
+		{"S7/tcp/handler-closes-connection", c13Opt{transport: "tcp", clients: []string{"full"}, handlerCloses: true}, 2, 3},
+		{"S7/pc/handler-closes-writer", c13Opt{transport: "pc", clients: []string{"full"}, handlerCloses: true}, 1, 2},
 		{"S5/pc/reader-without-ReadPacketConn", c13Opt{transport: "pc", badReader: true}, 100, 100},
 		{"S3/tcp/silent-client+second-start", c13Opt{transport: "tcp", clients: []string{"silent"}, secondStart: true}, 1, 2},
 		{"S3/pc/1-client+second-start", c13Opt{transport: "pc", clients: []string{"full"}, secondStart: true}, 1, 2},
